@@ -151,7 +151,14 @@ def gen_case(rnd, depth):
     if rnd.random() < 0.3:
         wh = ["cmp", rnd.choice(["lt", "ge", "ne"]), col("s0"), ["str", "b"]]
     q = select(sel, table("t"), wh=wh)
-    return mk_case({"t": rows}, q, mode="seq")
+    c = mk_case({"t": rows}, q, mode="seq")
+    if rnd.random() < 0.15:
+        # the same document with its integral numbers stored as another Go number kind: plain columns, comparisons and CASE
+        # work on every kind; arithmetic is refused (invalid cast) — a refusal is accepted, an ANSWER must be the model's
+        c["num_kind"] = rnd.choice(["int", "int64", "int32", "uint8", "float32", "mixed"])
+        c["kind_lenient"] = True
+        c["tag"] = "go-number-kind"
+    return c
 
 
 SEL_TEXTS = ["items[0].x", "items[1].x", "items[(1:end)]", "items[(begin:1)]", "items[each].x", "items[(0:2)].x",
